@@ -251,7 +251,9 @@ call_with_inference_limit(G, L, R, Bb, B) :-
     '$call_with_inference_counting'(call(G)),
     '$inference_level'(R, B),
     '$remove_inference_counter'(NBb, Count1),
-    Diff is L - (Count1 - Count0),
+    % when an enclosing limit is the one in power, Goal may have used more than
+    % L inferences; the remaining budget is never negative.
+    Diff is max(0, L - (Count1 - Count0)),
     (  '$clean_up_block'(NBb),
        '$reset_block'(Bb)
     ;  '$install_inference_counter'(NBb, Diff, _),
